@@ -165,3 +165,39 @@ func timedOut(res *Result) bool {
 	}
 	return false
 }
+
+// Long: one session (or a few) driven through hundreds of requests - counts, sequence numbers and accumulated
+// totals far beyond what a history of a few dozen operations reaches; the identity is checked all along.
+func genC01Long(t *rapid.T) Hist {
+	var hst Hist
+	cost := rapid.SampledFrom([]int{1, 3, 7}).Draw(t, "cost")
+	hst.Subs = []Sub{{Acct: [3]Acct{{cost, 1 << 40}, {cost, 1 << 40}, {cost, 5000}}}}
+	nSess := rapid.IntRange(1, 3).Draw(t, "sessions")
+	for i := 0; i < nSess; i++ {
+		hst.Ops = append(hst.Ops, Op{K: "create", S: 0, Name: "smf", UUs: []UU{{RG: 1, Req: 100}}})
+	}
+	n := h.Scale(320, 3000)
+	for i := 0; i < n; i++ {
+		rg := int32(1 + i%3)
+		op := Op{K: "update", S: 0, Sess: i % nSess, UUs: []UU{{RG: rg, Req: int32(50 + i%200), Conts: []Cont{{Q: "online", Tot: int32(1 + i%97), Pm: -1}}}}}
+		switch {
+		case i%61 == 60:
+			op.Trig = "FINAL"
+		case i%23 == 22:
+			op.Trig = "VOLUME_LIMIT"
+		case i%89 == 88:
+			op = Op{K: "recharge", S: 0, RG: rg, Amt: 1000}
+		}
+		hst.Ops = append(hst.Ops, op)
+	}
+	return hst
+}
+
+func TestC01Long(t *testing.T) {
+	h.Run(t, "C01", "long", genC01Long, func(hst Hist) *h.Verdict {
+		v := judgeC01(hst)
+		v.Label("history>=300-requests")
+		v.NonTrivial = true
+		return v
+	})
+}
